@@ -23,6 +23,7 @@ def run(ctx):
     ctx.do(n1, ["geometry_tools/coxeter.py"], lookup_rels=("geometry_tools/coxeter.py",))
     ctx.do(CA.rule_c2, "CoxeterGroup")
     ctx.do(CA.rule_cls1, "CoxeterGroup")
+    ctx.do(SI.rule_pm1, ["geometry_tools/coxeter.py", "geometry_tools/utils/core.py"])
     ctx.do(CA.rule_query_purity, "CoxeterGroup", [
         "bilinear_form", "cartan_representation", "geometric_representation",
         "canonical_representation", "cartan_matrix", "tits_vinberg_rep",
